@@ -92,8 +92,8 @@ func init() {
 		for l := 0; l < p.Sub; l++ {
 			subL = append(subL, uint64(l))
 		}
-		subL = append(subL, 1<<31-1, 1<<31, 1<<32, 1<<62-1, 1<<62)
-		for era := uint32(0); era <= 1; era++ {
+		subL = append(subL, 1<<31-1, 1<<31, 1<<32, 1<<62-1, 1<<62, 1<<63-1, 1<<63, 1<<64-1) // (differences of 2^63 and more: an order taken from a signed difference wraps)
+		for _, era := range []uint32{0, 1, 1<<31 - 1, 1 << 31, 1<<32 - 1} {
 			for _, l := range subL {
 				// for the order axioms also ids that differ only in case and ids from the other classes of the id alphabet
 				for _, c := range append(append([]string{}, cuids...), "U000000000000001", "_u00000000000003") {
